@@ -75,5 +75,37 @@ def run(ctx: Ctx):
         ctx.fail("factory-wiring", construct, msg, P_HOOKS, ln)
     if not probs:
         ctx.ok("factory-wiring")
+    # open enumerations: a custom value only survives if the position also admits the base type (then the
+    # registered hook passes it through); an open enumeration used bare rejects it
+    mm = im.mm
+    from ..pymodel import walk_ty
+    for c in t.attrs_classes():
+        for f in c.fields:
+            for sub in walk_ty(f.resolved):
+                if sub[0] == "union":
+                    continue
+            def bare(ty, in_union=False):
+                k = ty[0]
+                if k == "enum" and ty[1] in mm.enums and mm.enum_open(ty[1]) and not in_union:
+                    yield ty[1]
+                elif k == "union":
+                    for m_ in ty[1]:
+                        if m_[0] == "enum" and m_[1] in mm.enums and mm.enum_open(m_[1]) and \
+                                ("prim", mm.enum_base(m_[1])) not in ty[1]:
+                            yield m_[1]
+                        elif m_[0] != "enum":
+                            yield from bare(m_, True)
+                elif k in ("seq", "list"):
+                    yield from bare(ty[1])
+                elif k == "map":
+                    yield from bare(ty[2])
+                elif k == "tup":
+                    for x in ty[1]:
+                        yield from bare(x)
+            for en in bare(f.resolved):
+                ctx.fail("custom-enum-value-survives", f"{c.name}.{f.name}:{en}",
+                         f"{en} supports custom values, but {c.name}.{f.name} is annotated {show(f.resolved)}: a custom value "
+                         "cannot be structured, let alone round-tripped", P_TYPES, f.lineno)
+    ctx.ok("custom-enum-value-survives")
     ctx.extra["sites"] = len(sa.sites)
     ctx.extra["worlds"] = sa.worlds
